@@ -1674,6 +1674,9 @@ func (m *Machine) recoverToErr(handler *handler, r recoveryData) {
 	// dont double handle an exception (no nesting)
 	mut := t.Mutation
 	if mut.IsCalled(iException) {
+		// the panicked handler loop is gone, restart it
+		go m.handlerLoop()
+
 		return
 	}
 
@@ -1741,9 +1744,10 @@ func (m *Machine) recoverFinalPhase() {
 			continue
 		}
 
-		if t.latestHandlerIsEnter {
+		// revert each state in its own direction (idempotent)
+		if slices.Contains(t.Enters, s) {
 			activeStates = slicesWithout(activeStates, s)
-		} else {
+		} else if !slices.Contains(activeStates, s) {
 			activeStates = append(activeStates, s)
 		}
 	}
